@@ -9,6 +9,8 @@ use crate::{
 
 use boa_macros::js_str;
 use boa_string::JsStrVariant;
+use num_bigint::BigUint;
+use num_traits::ToPrimitive;
 
 /// Builtin javascript 'isFinite(number)' function.
 ///
@@ -129,14 +131,25 @@ fn from_js_str_radix(src: JsStr<'_>, radix: u8) -> Option<f64> {
         }
         result as f64
     } else {
-        let mut result = 0f64;
-        for c in src {
-            result = result * f64::from(radix) + f64::from(to_digit(c, radix)?);
-        }
-        result
+        // Accumulating the digits in a `f64` would round at every step, so compute the
+        // exact integer and round it only once.
+        let digits = src.map(|c| to_digit(c, radix)).collect::<Option<Vec<_>>>()?;
+        biguint_to_f64(&BigUint::from_radix_be(&digits, radix.into())?)
     };
 
     Some(result)
+}
+
+/// Converts an integer to the nearest `f64`, with ties to even.
+fn biguint_to_f64(int: &BigUint) -> f64 {
+    // Keep the 64 most significant bits, and set the lowest of them if any of the discarded
+    // bits is set (round to odd), so that the cast to `f64` rounds the whole integer correctly.
+    let shift = int.bits().saturating_sub(64);
+    let mut high = (int >> shift).to_u64().expect("has at most 64 bits");
+    if int.trailing_zeros().is_some_and(|zeros| zeros < shift) {
+        high |= 1;
+    }
+    high as f64 * 2f64.powi(i32::try_from(shift).unwrap_or(i32::MAX))
 }
 
 /// Builtin javascript 'parseInt(str, radix)' function.
